@@ -88,6 +88,7 @@ func runC05(w *World) {
 	// deliveries so that a healthy receiver is never retried (retries are C10's subject)
 	w.weights[akTick] = 1
 	w.maxTick = 50 * time.Millisecond
+	w.noTickWhile = func() bool { return w.httpInFlight(nil) }
 	w.cut = cutMode(w.knob("cut", 2))
 	n := w.addNode("n1", "10.0.0.1", 9851)
 	main := w.addWebhook("hook0.sim:80", nil)
